@@ -13,6 +13,7 @@ type Arch struct {
 	Ipad  int      `json:"ipad"`
 	Idx   string   `json:"idx"`
 	Full  bool     `json:"full"`
+	Xid   bool     `json:"xid,omitempty"` // the index lists identity CIDs although the header does not say "fully indexed"
 	Npad  int      `json:"npad"`
 	Hx    int      `json:"hx"` // 1: non-canonical header (version written as the two-byte integer 0x18 0x01)
 }
@@ -61,7 +62,7 @@ func (a *Arch) indexBytes() []byte {
 	var recs []RefRec
 	for _, s := range v1.Secs {
 		r := refRecOf(s.Cid, uint64(s.Off), codec)
-		if !a.Full && isIdentityCid(s.Cid) {
+		if !a.Full && !a.Xid && isIdentityCid(s.Cid) {
 			continue
 		}
 		recs = append(recs, r)
